@@ -59,11 +59,16 @@ func c02BlsSubject[K bls.KeyGroup](name string, pkSize, sigSize int) *kit.Subjec
 
 func c02BlsPlan(r *verifmc.Run) kit.Plan {
 	p := kit.Plan{AllMsgLens: c02BlsAllMsgLens, SmallLimit: 256, Stride: 16, MsgFlipLimit: 64}
-	if r.Thorough() {
+	switch {
+	case r.Config() != "default":
+		// ecc/bls12381 has no build- or CPU-dependent code; other configurations repeat one base case only
+		p.Seeds = []int{3}
+		p.MsgLens = []int{33}
+	case r.Thorough():
 		p.MsgLens = []int{0, 1, 137, 300}
 		p.MsgFlipLimit = 512
 		p.Pairs = true
-	} else {
+	default:
 		p.Seeds = []int{0, 3}
 		p.MsgLens = []int{0, 33}
 	}
@@ -118,6 +123,8 @@ func c02BlsSingle[K bls.KeyGroup](t *testing.T, unit, name string, pkSize, sigSi
 	s := c02BlsSubject[K](name, pkSize, sigSize)
 	p := c02BlsPlan(r)
 	kit.Run(r, s, p)
+	var col kit.Collector
+	defer col.Flush(r)
 
 	// flag / length alphabet on signature and public key
 	seeds := verifmc.Seeds(32, r.Seed())
@@ -180,10 +187,10 @@ func c02BlsSingle[K bls.KeyGroup](t *testing.T, unit, name string, pkSize, sigSi
 			payload := map[string]interface{}{"seed": verifmc.FullHex(seeds[si]), "msg": verifmc.Hex(msg), "altered": verifmc.FullHex(a.Data), "honest_sig": verifmc.FullHex(sig), "honest_pk": verifmc.FullHex(pkEnc)}
 			switch {
 			case pn:
-				r.Violation(fmt.Sprintf("C02|%s|%s|panic:%s", name, class, verifmc.PanicClass(what)), id, id+": panicked: "+what, payload)
+				col.Add(fmt.Sprintf("C02|%s|%s|panic:%s", name, class, verifmc.PanicClass(what)), id, id+": panicked: "+what, payload)
 				r.Outcome(class + "->PANIC")
 			case ok:
-				r.Violation(fmt.Sprintf("C02|%s|%s|accepted", name, class), id, id+": the altered tuple verifies", payload)
+				col.Add(fmt.Sprintf("C02|%s|%s|accepted", name, class), id, id+": the altered tuple verifies", payload)
 				r.Outcome(class + "->ACCEPTED")
 			default:
 				r.Outcome(class[:strings.Index(class, "|")] + "->rejected")
@@ -245,6 +252,8 @@ func c02Perms(n int) [][]int {
 func c02BlsAggregate[K bls.KeyGroup](r *verifmc.Run, name string, zero K, sigSize int) {
 	seeds := verifmc.Seeds(32, r.Seed())
 	msgLens := []int{0, 33, 137, 1, 300} // message of signer i (distinct messages)
+	var col kit.Collector
+	defer col.Flush(r)
 	keys := make([]*bls.PrivateKey[K], len(seeds))
 	pubs := make([]*bls.PublicKey[K], len(seeds))
 	for i := range seeds {
@@ -252,6 +261,9 @@ func c02BlsAggregate[K bls.KeyGroup](r *verifmc.Run, name string, zero K, sigSiz
 		pubs[i] = keys[i].PublicKey()
 	}
 	maxN := 3
+	if r.Config() != "default" {
+		maxN = 2
+	}
 	for n := 1; n <= maxN; n++ {
 		for rot := 0; rot < r.Pick(1, 2); rot++ { // which signers: {0..n-1} and, thorough, {2..2+n-1}
 			base := fmt.Sprintf("%s/agg/n%d/rot%d|", name, n, rot)
@@ -401,10 +413,10 @@ func c02BlsAggregate[K bls.KeyGroup](r *verifmc.Run, name string, zero K, sigSiz
 				pl := map[string]interface{}{"group": name, "signers(seed index)": who, "alteration": c.class + ":" + c.name, "aggregate": verifmc.FullHex(c.sig), "pairs": len(c.pk), "msgs": len(c.msgs)}
 				switch {
 				case pn:
-					r.Violation(fmt.Sprintf("C02|%s|%s|panic:%s", name, c.class, verifmc.PanicClass(what)), id, id+": VerifyAggregate panicked: "+what, pl)
+					col.Add(fmt.Sprintf("C02|%s|%s|panic:%s", name, c.class, verifmc.PanicClass(what)), id, id+": VerifyAggregate panicked: "+what, pl)
 					r.Outcome(c.class + "->PANIC")
 				case ok:
-					r.Violation(fmt.Sprintf("C02|%s|%s|accepted", name, c.class), id, id+": VerifyAggregate accepts the altered tuple", pl)
+					col.Add(fmt.Sprintf("C02|%s|%s|accepted", name, c.class), id, id+": VerifyAggregate accepts the altered tuple", pl)
 					r.Outcome(c.class + "->ACCEPTED")
 				default:
 					r.Outcome(strings.SplitN(c.class, "|", 2)[0] + "->rejected")
@@ -463,7 +475,9 @@ func TestVerifC02_bls_aggregate(t *testing.T) {
 	c02BlsAggregate[bls.KeyG2SigG1](r, "BLS-KeyG2SigG1", bls.G2{}, GG.G1SizeCompressed)
 	r.Set("signers", "1..3")
 	if !r.Replaying() {
-		r.RequireCounter("aggregate_honest_verified", 2*(1+2+6))
+		if r.Config() == "default" {
+			r.RequireCounter("aggregate_honest_verified", 2*(1+2+6))
+		}
 		for _, c := range []string{"alt_agg-drop-pair", "alt_agg-dup-pair", "alt_agg-msg-other", "alt_agg-pk-other", "alt_agg-msg-swap",
 			"alt_agg-sig-missing", "alt_agg-sig-repeated", "alt_agg-sig-single", "alt_agg-sig-flip", "alt_agg-sig-trunc", "alt_agg-sig-append", "alt_aggregate-input"} {
 			r.RequireCounter(c, 2)
